@@ -96,6 +96,21 @@ def check_case(c, ctx, h=None):
         # only when reaching the limit is really what decides (the reference, which implements the limits independently, must agree that it does)
         if is_limit_error(ref):
             raise Violation(c, 'limit %s (%s): exceeding the limit by one must fail with %s, debugger says %r' % (c['limit'], c['way'], limerr, tree), observed=tree, expected=ref)
+    # (3) the failure is final: stepping on after the limit error repeats it - the session must never reach a successful end that way (the failing
+    # operation or script switch left nothing behind). Only for sessions short enough to be logged step by step.
+    if tree[0] == 'err' and is_limit_error(tree) and got.get('steps', 10 ** 9) <= 420:
+        n = got['steps']
+        g = h.req(kvline('session', script=c['script'], stack=c['stack'], flags=c['flags'], sv=sv, succ=c.get('succ'), cmds=','.join(['s'] * (n + 4)), finish=1))
+        if 'log' in g:
+            ctx.count('failure-is-final-checked:' + c['limit'])
+            first = next((i for i, e in enumerate(g['log']) if not e['acc']), None)
+            if first is None or g.get('ok'):
+                raise Violation(c, 'limit %s (%s): the run fails with %r, but stepping through the same session reaches %s' % (c['limit'], c['way'], tree[1], 'a successful end' if g.get('ok') else 'no failure'),
+                                observed=[first, g.get('ok'), g.get('err')], expected=tree)
+            for e in g['log'][first:]:
+                if e['acc'] or e['err'] != tree[1]:
+                    raise Violation(c, 'limit %s (%s): after the step that failed with %r a further step %s' % (c['limit'], c['way'], tree[1], 'is accepted' if e['acc'] else 'fails differently (%r)' % e['err']),
+                                    observed=[e['acc'], e['err'], e['d'].get('done')], expected=[False, tree[1]])
     # (1) differential
     if tree != ref:
         raise Violation(c, 'outcome differs from the reference: reference %r, debugger %r' % (ref, tree), observed=tree, expected=ref)
